@@ -711,9 +711,39 @@ def gen_C11(rng, tier, dist):
     return out
 
 
+def gen_C13(rng, tier, dist):
+    out = []
+    nh = 4 if tier == "quick" else 60
+    layouts = [("none", 0), ("none", 1), ("aac-lc", 0), ("aac-lc", 1), ("opus", 1), ("opus", 0)]
+    for hi in range(nh):
+        audio, fast = layouts[hi % len(layouts)]
+        cfg, ops, info = gen_history(rng, dist, codec=rng.choice(VCODECS), audio=audio, fast=fast, nv=rng.randrange(1, 4),
+                                     na=rng.randrange(1, 3) if audio != "none" else 0, finish=None, md=dict(md=0) if hi % 2 else None)
+        fin = rng.choice(["fin", "fins", "finish", "finishs", "flush"]) if hi >= 4 else ["fins", "fin", "finishs", "fins"][hi]
+        tail = [] if fin in ("finish", "finishs", "flush") else [rng.choice(["fin", "fins"]), "wv %s %s 0" % (f64bits(99.0), hx(delta_frame(rng, info["codec"])))]
+        ops2 = ops + [fin] + tail
+        maxoff = 1500
+        for k in range(0, maxoff):
+            kind = (k * 7 + hi) % 17
+            out.append(pcase(cfg + " sink=failat:%d:%d twin=nofault" % (k, kind), ops2))
+        dist["exhaustive_fail_offsets_per_history"] = maxoff
+        for k in range(0, maxoff, 37):
+            out.append(pcase(cfg + " sink=zeroat:%d twin=nofault" % k, ops2))
+        for cap in (1, 2, 7, 4096):
+            out.append(pcase(cfg + " sink=cap:%d twin=nofault" % cap, ops2))
+            out.append(pcase(cfg + " sink=cap:%d+intr:%s twin=nofault" % (cap, ",".join(str(rng.randrange(0, 1200)) for _ in range(5))), ops2))
+            out.append(pcase(cfg + " sink=cap:%d+failat:%d:3 twin=nofault" % (cap, rng.randrange(0, 1200)), ops2))
+        for _ in range(20):
+            script = ",".join(rng.choice(["a%d" % rng.choice([1, 3, 10, 100000]), "i", "i", "a1", "f%d" % rng.randrange(17), "z"] if rng.random() < 0.3
+                                         else ["a%d" % rng.choice([1, 3, 10, 100000]), "i"]) for _ in range(rng.randrange(1, 25)))
+            out.append(pcase(cfg + " sink=script:%s twin=nofault" % script, ops2))
+            dist["script"] += 1
+    return out
+
+
 GENERATORS = {"C14": gen_C14, "C01": gen_C01, "C02": gen_C02, "C03": gen_C03, "C15": gen_C15, "C06": gen_C06,
               "C09": gen_C09, "C08": gen_C08, "C18": gen_C18, "C04": gen_C04, "C05": gen_C05,
-              "C10": gen_C10, "C11": gen_C11}
+              "C10": gen_C10, "C11": gen_C11, "C13": gen_C13}
 
 RULES = {
     "C14": "exhaustive byte strings up to a length bound over {00,01,02,03,67,FF} through both conversion entry points; "
